@@ -209,6 +209,59 @@ theorem C16_resaved_still_races :
     (run (init rCfgs) wTrace).map (fun w => ((w.agents 0).sock == (w.agents 1).sock, midRun (w.agents 0), midRun (w.agents 1))) =
       some (true, true, true) := by decide
 
+/-! ### … saved again with ANOTHER DEFINITION (another `name:` key, description, steps, params, logDir) -/
+
+/-- **the socket name is a function of the file's location alone** (internal/dag/dag.go `SockAddr`: the file name
+    without its extension + md5 of the location — nothing of the definition's CONTENT enters).  `sockOf` maps a path to
+    its socket name; agent `a` loaded the definition at path `p` before it was saved again, agent `b` loads it
+    afterwards.  Nothing else relates the two: the lock keys `(w.agents a).dag`, `(w.agents b).dag` (inodes) and the
+    schedules (`steps`, `hands`: the content) are arbitrary. -/
+def SockOfPath {Path : Type} (sockOf : Path → Nat) (p : Path) (w : World) (a b : Nat) : Prop :=
+  (w.agents a).sock = sockOf p ∧ (w.agents b).sock = sockOf p
+
+/-- **C16 for a file saved again with whatever content, while its run answers.**  Under `SockOfPath` a re-save leaves the
+    probe's target unchanged: in every reachable world, if the first run `a` is listening (its status endpoint answers)
+    and `b` — started or retried from the SAME PATH after the file was replaced, whatever inode and definition the path
+    now names — does its probe, then `b ≠ a`, `b` is refused having touched nothing (`Pristine`) and never acts again,
+    `a`'s record is unchanged, and the endpoint AT THE FILE'S ADDRESS `sockOf p` is still `a`'s, listening — so a status
+    query for the file (a probe of `sockOf p` by anybody who loads the file as it is now) keeps reaching the first run. -/
+theorem C16_resaved_same_path_refused {Path : Type} (sockOf : Path → Nat) (p : Path)
+    (w : World) (hw : Reach w) (a b : Nat) (hp : SockOfPath sockOf p w a b)
+    (hA : w.ns (w.agents a).sock = .bound a true) (hb : (w.agents b).pc = .probe) :
+    a ≠ b ∧ ∃ w', step w b .probe = some w' ∧
+      (w'.agents b).pc = .refused ∧ Pristine (w'.agents b) ∧
+      w'.ns (sockOf p) = .bound a true ∧ w'.agents a = w.agents a ∧
+      (∀ tr w'', run w' tr = some w'' → w''.agents b = w'.agents b ∧ ∀ x ∈ tr, x.1 ≠ b) := by
+  have hab : a ≠ b := by
+    intro e
+    have ho := (C16_bound_means_active w hw _ a true hA).2.1
+    rw [e, hb] at ho
+    simp [ownerOk] at ho
+  have hA' : w.ns (w.agents b).sock = .bound a true := by rw [hp.2, ← hp.1]; exact hA
+  obtain ⟨w', hs, hr, hpr, hns, hoth, hfut⟩ := C16_sequential w hw a b hA' hb
+  refine ⟨hab, w', hs, hr, hpr, ?_, hoth a hab, fun tr w'' h => ⟨(hfut tr w'' h).1, (hfut tr w'' h).2.2⟩⟩
+  rw [hns, ← hp.1]; exact hA
+
+/-- the hypotheses are met by the re-saved file of `rCfgs` (lock keys 0 / 1, one socket name): path `()` ↦ socket 0 -/
+example : (run (init rCfgs) (by_ 0 (upToProbe ++ histOps ++ [.unlink, .bind, .listen, .execStep]) ++
+      by_ 1 [.setup true, .precond true, .lock])).map
+    (fun w => (decide ((w.agents 0).sock = (fun (_ : Unit) => 0) () ∧ (w.agents 1).sock = (fun (_ : Unit) => 0) ()),
+               w.ns (w.agents 0).sock, (w.agents 1).pc, (w.agents 0).dag, (w.agents 1).dag)) =
+    some (true, .bound 0 true, .probe, 0, 1) := by decide
+
+/-- a start of the re-saved file whose socket name is ANOTHER one (lock key 1, socket 1): what a socket name that depends
+    on the definition's content — say on its `name:` key — would give after a save that changes that content -/
+def nCfgs : List Cfg := [{ dag := 0, steps := 2, sock := 0 }, { dag := 1, steps := 2, sock := 1 }]
+
+/-- **`SockOfPath` is needed**: with another lock key AND another socket name nothing refuses the second start although
+    the first run is listening and in its steps — strictly sequentially, no race involved: it records a run, executes a
+    step alongside the first run, and the first run's endpoint is not at the second one's address. -/
+theorem C16_resaved_other_socket_not_refused :
+    (run (init nCfgs) (by_ 0 (upToProbe ++ histOps ++ [.unlink, .bind, .listen, .execStep]) ++
+      by_ 1 (upToProbe ++ histOps ++ [.unlink, .bind, .listen, .execStep]))).map
+      (fun w => (w.ns 0, w.ns 1, midRun (w.agents 0), midRun (w.agents 1), (w.agents 1).recs)) =
+    some (.bound 0 true, .bound 1 true, true, true, 2) := by decide
+
 /-! ### witnesses / non-vacuity -/
 
 def oCfgs : List Cfg := [{ dag := 0, steps := 2 }, { dag := 0, steps := 2 }]
@@ -252,3 +305,5 @@ end BdModel.P16
 #print axioms BdModel.P16.C16_locality
 #print axioms BdModel.P16.C16_unlocked_still_races
 #print axioms BdModel.P16.C16_resaved_still_races
+#print axioms BdModel.P16.C16_resaved_same_path_refused
+#print axioms BdModel.P16.C16_resaved_other_socket_not_refused
